@@ -8,19 +8,24 @@ from ..engine import monitors, suite
 from ..runner import Divergence, Driver, Env, Outcome, Violation, diff_streams
 
 THEOREMS = ["C09_empty_expected", "C09_complete_iff", "C09_complete_ordered", "C09_complete_perm", "C09_pending_add",
-            "C09_dropped_iff_surplus", "C09_reducer_fresh_add", "C09_reducer_stale_rerun", "C09_reducer_rerun_skips", "C09_reducer_delete",
+            "C09_dropped_iff_surplus", "C09_reducer_fresh_add", "C09_reducer_stale_rerun", "C09_reducer_stale_rerun_all_buffers", "C09_stale_rerun_tick", "C09_reducer_rerun_skips", "C09_reducer_delete",
             "C09_drain_keeps_buffers", "C09_single_flight_partition", "C09_single_flight_once", "C09_refuted_double_count"]
 EXPLANATION = (
     "Lean: collectEvents (model of InternalContext.collect_events) returns a list iff buffer+event has exactly the expected "
     "multiset of types (under the buffer invariant, which pending adds preserve), ordered as `expected`, a permutation of "
     "buffer+event; only surplus events of a satisfied type are not kept; the reducer appends on a fresh snapshot, re-runs the "
-    "invocation on the same slot on a stale (shorter) snapshot, clears exactly the completed buffer; for every arrival order and "
+    "invocation on the same slot on a stale (shorter) snapshot with a snapshot EQUAL to the live buffers, buffer by buffer, whatever "
+    "the old snapshot held (also the remains of a round that completed meanwhile; C09_stale_rerun_tick: through the whole result "
+    "tick), clears exactly the completed buffer; for every arrival order and "
     "any number of repeated collections with one invocation in flight, returned lists + buffer + surplus partition the arrived "
     "events (each event in at most one list, none lost). Refuted for two invocations in flight (C09_refuted_double_count): "
     "known findings two_completions_same_snapshot / dropped_against_stale_snapshot, replayed on the real engine. Tie: CE ops "
     "(real collect_events on generated snapshots, incl. ill-formed buffers), CR ops (real _reduce_tick + real collect_events "
-    "driven single-flight over whole arrival sequences), reducer/runner correspondence. Search: per-call, per-result-tick and "
-    "whole-run monitors on live fan-in workflows with 1..4 workers under scheduler-controlled interleavings."
+    "driven single-flight over whole arrival sequences), reducer/runner correspondence (direct pairs incl. in-progress snapshots "
+    "that are no prefix of the live buffer). Search: the re-run rule recomputed from (state, tick) on every direct pair and every "
+    "live result tick (C09/rerun_snapshot_not_fresh), the snapshot each invocation works on vs. the live buffer it was started / "
+    "re-run against, per-call, per-result-tick and whole-run monitors on live fan-in workflows with 1..4 workers under "
+    "scheduler-controlled interleavings, incl. three-type rounds where one invocation outlives a completed round (span family)."
 )
 ASSUMPTIONS = suite.ENGINE_ASSUMPTIONS + [
     "event classes are compared by exact type, as the code does (Counter over type(e)); subclasses are distinct class ids",
@@ -207,11 +212,21 @@ def _drive(out: Outcome, name: str, ops: list[str], exp: list[str]) -> None:
 def run(env: Env) -> Outcome:
     out = Outcome()
     out.rule = ("CE: (expected, snapshot, event) triples, 70% with the buffer invariant; CR: arrival sequences of 1..12 events through the real "
-                "reducer + collect_events; live: fan-in workflows (collecting step with 1..3 workers, gates) and general specs under random "
+                "reducer + collect_events; direct (state, tick) pairs with prefix and earlier-round snapshots; live: fan-in workflows (collecting "
+                "step with 1..3 workers, gates), span fan-in (3 types, 2..3 rounds, a held straggler) and general specs under random "
                 "schedules; non-trivial = a list was returned / more than 2 ticks; distinct by op line / (spec, schedule)")
+    case = (env.replay or {}).get("payload", {}).get("case") if env.replay is not None else None
+    if isinstance(case, dict) and "direct_pair" in case:
+        # a (state, tick) pair of the direct stream: regenerated from its generator seed, monitored alone
+        dp = case["direct_pair"]
+        suite.direct_corr(env, out, dp["index"] + 1, gen_kwargs=dp.get("gen_kwargs") or {}, pair_monitor=monitors.c09_rerun_check,
+                          gen_seed=dp["gen_seed"], only_index=dp["index"])
+    # the corpus (hand-picked sequences, the witnesses of the open findings) and a replayed live case run first
+    suite.live_runs(env, out, 0, [monitors.mon_c09], extra_specs=suite.load_corpus("C09"))
     _ce_corr(env, out, env.budget(4000, 80000))
     _cr_corr(env, out, env.budget(1500, 30000))
-    suite.direct_corr(env, out, env.budget(1500, 30000))
-    suite.live_runs(env, out, env.budget(60, 1200), [monitors.mon_c09], extra_specs=suite.load_corpus("C09"))
+    suite.direct_corr(env, out, env.budget(1500, 30000), gen_kwargs={"span_snapshots": True}, pair_monitor=monitors.c09_rerun_check)
+    suite.live_runs(env, out, env.budget(60, 1200), [monitors.mon_c09])
     suite.live_runs(env, out, env.budget(300, 6000), [monitors.mon_c09], gen_kwargs={"family": "fanin"})
+    suite.live_runs(env, out, env.budget(60, 1200), [monitors.mon_c09], gen_kwargs={"family": "span"})
     return out
